@@ -678,7 +678,7 @@ fn run_adapters(t: &mut Tape, cx: &mut Cx) -> Result<(), String> {
 pub fn property() -> Property {
     Property {
         id: "C14",
-        rule: "a case = a fault script of 0..10 per-call behaviours of a harness-implemented stream (full, short by 1..9, zero, interrupted incl. bursts, hard error of 4 kinds) followed by a Full or Zero tail + one transfer (read_volatile_from, read_exact_volatile_from, write_volatile_to, write_all_volatile_to) on a slice, on a region, or on guest memory made of two adjacent regions followed by a hole, with counts ending inside the first region, at the boundary, in the second region and in the hole; oracle = conservation invariants over the stream log and memory before/after (interruptions retried and never reported, hard error ends and is reported, delivered bytes stored once in order, nothing else changes, exact forms succeed iff the full count moved, up-to forms report what moved, the stream is never asked for more than what is left); non-trivial = a short transfer happened, repeated interruptions, a hard error, an exact-form shortfall, a range crossing the region boundary or running into the hole; distinct = decoded (script, target, call)",
+        rule: "a case = a fault script of 0..10 per-call behaviours of a harness-implemented stream (full, short by 1..9, zero, interrupted incl. bursts, hard error of 4 kinds) followed by a Full or Zero tail + one transfer (read_volatile_from, read_exact_volatile_from, write_volatile_to, write_all_volatile_to) on a slice, on a region, or on guest memory made of two adjacent regions followed by a hole, with counts ending inside the first region, at the boundary, in the second region and in the hole; oracle = conservation invariants over the stream log and memory before/after (interruptions retried and never reported, hard error ends and is reported, delivered bytes stored once in order, nothing else changes, exact forms succeed iff the full count moved, up-to forms report what moved, the stream is never asked for more than what is left); plus the crate's own stream objects (&[u8], Cursor, Vec, &mut [u8], files, pipes) with early end-of-stream / sinks that fill up at slice, region and guest level (xen build: regions of generated kinds incl. mapped on demand): bytes consumed from the reader = bytes stored in order, bytes received by the writer = the next guest bytes, result consistent with both, a healthy stream on a mapped range makes progress; non-trivial = a short transfer happened, repeated interruptions, a hard error, an exact-form shortfall, a range crossing the region boundary or running into the hole; distinct = decoded (script, target, call)",
         assumptions: &["the reader hands out a position-determined byte sequence, so dropped or duplicated bytes are visible", "zero-count transfers are discarded here (C18 owns them)", "kernel-generated EINTR is not injected; the retry logic sees scripted interruptions"],
         subchecks: vec![
             SubCheck { name: "slice", builds: &[Build::Std], kind: Kind::Random { quick: 60_000, thorough: 3_000_000, max_words: 48 }, run: run_slice },
